@@ -18,7 +18,11 @@ RULE = ("random command trees (depth <= 3) mixing short-only / long-only / short
         "argument groups (required or not, multiple), requires rules towards arguments and groups (chains, conditional rules), "
         "subcommand_negates_reqs / args_conflicts_with_subcommands / subcommand_required / allow_external_subcommands, subcommand_value_name, "
         "next_help_heading between the Command::arg calls (with resets) and subcommand_help_heading at every level, and custom help "
-        "templates made of titled blocks for {options} / {positionals} / {subcommands} (any order, repeated) or {all-args}, with unknown tags.")
+        "templates made of titled blocks for {options} / {positionals} / {subcommands} (any order, repeated) or {all-args}, with unknown tags.  "
+        "Fourth pass, stream help-subcommand-paths (parser harness mode / extracted parse_top): trees of depth <= 3 with visible and hidden "
+        "subcommand aliases, infer_subcommands, a flag and an option per level; lines = arguments, 0..2 descents by name / alias with arguments, then "
+        "`help` (or a prefix of it under inference) + 0..3 words (name, alias, proper prefix of a name / of an alias, garbage) or --help / -h; "
+        "non-trivial when the reference reading resolves the line to a level.")
 TRUSTED = [
     "Coq 8.16.1 kernel (coqc); no native_compute; theorems C12_* are 'Closed under the global context'",
     "extraction: ExtrOcamlBasic only, no Extract Constant; OCaml driver ocaml/help_driver.ml (spec reader, printing, display_width = byte length)",
@@ -31,6 +35,7 @@ ASSUMPTIONS = [
     "domain of the model: no flatten_help, override_usage / override_help, Arg::group on the argument side, subcommand visible aliases (the generators stay inside it); argument groups, requires, the subcommand usage forms, next_help_heading, subcommand_help_heading, subcommand_value_name, custom help templates (tag dispatch; the texts of name / bin / version / author / before- / after-help are not modelled), env, defaults, (short) aliases, possible values in spec_vals and global arguments are modelled",
     "refs_ok (hypothesis of C12_padding_safe, C12_render_total, C12_usage_*, C12_template_total): group ids unique, group members are arguments, every id named by a requires rule exists -- what debug_asserts.rs checks before any rendering",
     "the generators keep `hide`n arguments out of groups and out of requires targets: a hidden member of a listed group is printed by format_group (observation C12_usage_hidden_group_member_shown, replayed on the real crate)",
+    "fourth pass: the wide help-chain theorems (C12_help_flag_*_wide*, C12_help_subcommand_*) quantify over the class hsplit (inside C09's wsplit/wline): every level accepts its own arguments from a fresh matcher, levels are left through name / alias / inferred prefix / long flag-subcommand tokens, ignore_errors and args_conflicts_with_subcommands off; the *_gen forms assume the user's tree is unbuilt (tree_all unb), the help flag not disabled at the level and no subcommand of it named `--help` / `-h`",
     "the help-level theorems on the parser model (C12_help_flag_*_level_gen) quantify over chains of subcommand names/aliases directly followed by the help flag (class help_chain); hypotheses: the level at the end of the chain contains the generated help argument (C12_build_has_help: the build puts it there when the flag is not disabled) and no subcommand of that level answers to the token `--help` / `-h`",
     "C12_padding_safe assumes every rendered left column is at most 65 000 columns wide (observation N: core::fmt limits run-time widths to u16 on rustc >= 1.87)",
     "names are ASCII in generated cases (columns = characters = bytes)",
@@ -1434,7 +1439,8 @@ def classify_known(stream, case, impl, failure):
 
 
 TECHNIQUE = ("Coq proof (column arithmetic, visibility, section assembly, spec_vals non-interference of the help writer; usage line over the "
-             "requirement graph with groups; tag dispatch of custom templates; help-flag dispatch along a subcommand chain on the parser model) "
+             "requirement graph with groups; tag dispatch of custom templates; help-flag and help-subcommand dispatch along subcommand chains with "
+             "arguments between the names, on the parser model) "
              "+ extracted-model/implementation correspondence")
 LEVEL_TEXT = ("Machine-checked theorems (Coq 8.16, closed under the global context) about a model of help_template.rs / "
               "usage.rs that mirrors the Rust functions one by one: every unsigned subtraction and run-time format width in "
@@ -1456,14 +1462,26 @@ LEVEL_TEXT = ("Machine-checked theorems (Coq 8.16, closed under the global conte
               "is mentioned (own piece, or inside the <a|b> of a listed group it belongs to); custom help templates: write_templated_help is "
               "modelled tag by tag and, for EVERY template text, rendering is total, every row any tag writes comes from a shown argument or "
               "a non-hidden subcommand, and {options} / {positionals} / {subcommands} / {all-args} each list every visible item of their kind; "
-              "next_help_heading / subcommand_help_heading decide the section an item is listed in.  The "
+              "next_help_heading / subcommand_help_heading decide the section an item is listed in.  Fourth pass: on the parser model "
+              "`prog -v sub --opt x subsub (--help|-h) anything..` returns the DisplayHelp error of subsub for C09's wide class of lines "
+              "(per level options in six spellings, positional values, multi-values; levels left through names, aliases, inferred prefixes, "
+              "long flag-subcommands), given that every level accepts its own arguments; the generated help argument is DERIVED for every "
+              "level reached from an unbuilt tree whose help flag is not disabled; `help <path>` (the help subcommand; `help` itself possibly "
+              "an inferred prefix) returns the help of the level the path of names / aliases leads to, a word that is no exact name or alias "
+              "gives InvalidSubcommand, and parse_help_subcommand's unwrap is shown dead for clap's canonicalising lookup and live for lookups "
+              "that hand on the typed alias text; a hidden argument that is neither in the unrolled requirement closure nor a member of a "
+              "listed group is MENTIONED by no usage piece (own piece or inside a <a|b>), with a witness for each side of that boundary.  The "
               "model is tied to clap_builder on every run by rendering generated command trees with the real crate at widths "
               "0..200 (debug and release) and comparing sections, rows, help columns and usage tokens with the extracted model; "
               "an independent python oracle written from the property text checks the rendered text itself.")
 LEVEL_NOTE = ("Trusted: Coq kernel, extraction, OCaml driver, Rust harness, generators; core::fmt, BTreeMap, f32 comparison "
               "(swept each run), textwrap (C20) and unicode-width are modelled or abstract; the model's domain excludes flatten_help, "
               "usage / help overrides, subcommand aliases in help, the texts of the template tags name / bin / version / author / before- / "
-              "after-help, non-ASCII names.  Differential / oracle only: byte-exact layout and wrapped text, help chains with flags or values "
-              "between the names.  The help-flag theorems no longer assume long_help_at / short_help_at: they are derived from validity for a level "
+              "after-help, non-ASCII names, Arg::group on the argument side.  Differential / oracle only: byte-exact layout and wrapped text, help "
+              "requests on lines outside the class hsplit (levels left through -S / a short cluster, the flag read while a multi-valued positional "
+              "collects values, args_conflicts_with_subcommands, ignore_errors; covered by the stream help-subcommand-paths and C09's streams).  "
+              "The help-flag theorems no longer assume long_help_at / short_help_at: they are derived from validity for a level "
               "that contains the generated help argument, with the necessary side condition that no subcommand answers to `--help` / `-h`.  Observations (not defect fixes): a default value naming "
-              "a hidden possible value is printed in [default: ..]; a hidden member of a listed group is printed in the usage line <a|b>.")
+              "a hidden possible value is printed in [default: ..]; a hidden member of a listed group is printed in the usage line <a|b> (recorded "
+              "finding; C12_usage_hidden_listed_member_mentioned), and a hidden argument that a required argument `requires` is printed on its own "
+              "(C12_usage_hidden_required_target_mentioned).")
